@@ -13,9 +13,9 @@ in AGP and TPF, e.g. a contig-type gap followed by a scaffold-type gap) the outp
 order, with its length and type - whichever way PretextView rounded the scaffold's length (down, up, or no rounding needed).
 Gap rows in front of the first or behind the last contig of an input scaffold separate no two contigs and no output
 scaffold may begin or end with a gap (C07): such terminal gap rows are the only input rows that may - and must - be missing
-from the output; they do count for the scaffold's length in the map.  One more side condition: runs of two or more gap rows
-are only generated in scaffolds of at least one texel, which the statement puts IN the map (a scaffold shorter than a texel
-that is absent from the map is rebuilt from its contigs, and whether its gap run must survive that is C07's question).
+from the output; they do count for the scaffold's length in the map.  This holds for scaffolds shorter than a texel that
+are absent from the map as well: they are rebuilt from their contigs and must come out with every gap row of every run
+(repaired in /repo: the rebuild used to replace a run of gap rows by one join gap).
 
 Painted clause, on top of the returned assemblies: for every n-th all-painted case the output assemblies are asked for a
 second time from the same BuildAssembly (names and content must not depend on how often they are requested), and some
@@ -56,8 +56,6 @@ def in_domain(inp, bpt):
         if Fraction(pg.rows_len(s["rows"])) >= f:
             if Fraction(pg.row_len(core[-1])) < f:
                 return False
-        elif has_gap_run(core):
-            return False
     return True
 
 
@@ -445,6 +443,9 @@ def run(tier, seed, **opts):
                 inp.append(pg.make_scaffold("scaffold_2", (2, 2) if bpt > 7 else (1,), None, [C1] if bpt > 7 else None, "own", tag="2"))
             elif (si + bi) % 3 == 1 and not quick:
                 inp.append(run_scaffold("scaffold_2", (40, 40), (1, -1), [(S3, C1)], (), (C1,), "own", "2"))
+            elif bpt > 7:
+                # a scaffold shorter than a texel with a run of gap rows (absent from the map in half of the variants)
+                inp.append(run_scaffold("scaffold_2", (1, 2, 1), (1, -1, 1), [((C1, S3), (S1, C1, S1))[idx % 2], ()], (), (), namings[(idx + 1) % 3], "2"))
             if not in_domain(inp, bpt):
                 stats["skipped_outside_domain"] += 1
                 continue
@@ -464,8 +465,6 @@ def run(tier, seed, **opts):
             runs = [tuple(rng.choice(GAP_KINDS) for _ in range(rng.choice((0, 1, 2, 2, 2, 3)))) for _ in range(nc - 1)]
             lead = tuple(rng.choice(GAP_KINDS) for _ in range(rng.choice((0, 0, 0, 1, 2))))
             trail = tuple(rng.choice(GAP_KINDS) for _ in range(rng.choice((0, 0, 0, 1, 2))))
-            if sum(lt) + sum(g[0] for r in (*runs, lead, trail) for g in r) < bpt:
-                runs = [r[:1] for r in runs]  # shorter than a texel: single gap rows only (side condition, see the docstring)
             sp = [rng.choice((1, -1)) for _ in range(nc)]
             inp.append(run_scaffold(f"scaffold_{si + 1}", lt, sp, runs, lead, trail, rng.choice(namings), str(si + 1)))
         if not in_domain(inp, bpt):
